@@ -95,7 +95,8 @@ def norm_py(r):
 def norm_js(out, has_header):
     if 'error' in out:
         e = out['error']
-        cls = 'io:' if e.get('name') == 'RbqlIOHandlingError' else 'EXC:' + str(e.get('name')) + ':'
+        # both the exception class and the type reported by the implementation's own exception_to_error_info() must say "IO handling"
+        cls = 'io:' if (e.get('name') == 'RbqlIOHandlingError' and e.get('type') == 'IO handling') else 'EXC:' + str(e.get('name')) + '/' + str(e.get('type')) + ':'
         return {'header': None, 'records': None, 'warnings': [], 'error': cls + e.get('msg', '')}
     return {'header': out.get('header') if has_header else None, 'records': out.get('records'), 'warnings': sorted(out.get('warnings', [])), 'error': None}
 
@@ -103,7 +104,7 @@ def norm_js(out, has_header):
 def part_read(sh, res):
     rc, eng = tree.csvmod(), tree.engine()
     o = sh['o']
-    syms = [o, '"', ',', ' ', '\n', '\r', '#']
+    syms = [o, '"', ',', ' ', '\n', '\r', '#', '\ufeff']
     policy, dlm = sh['policy']
     cases, meta = [], []
     for has_header in (False, True):
@@ -277,7 +278,7 @@ def main(tier, seed):
         shards.append({'part': 'split', 'o': o, 'dlms': [dlm], 'policies': ['quoted'], 'maxlen': 8 if T else 7})
         shards.append({'part': 'split', 'o': o, 'dlms': [dlm], 'policies': ['simple', 'whitespace', 'monocolumn'], 'maxlen': 6 if T else 5})
         shards.append({'part': 'quote', 'o': o, 'dlms': [dlm], 'maxlen': 6 if T else 5})
-    syms = [o, '"', ',', ' ', '\n', '\r', '#']
+    syms = [o, '"', ',', ' ', '\n', '\r', '#', '\ufeff']
     for pol in POLICIES:
         for first in syms:
             shards.append({'part': 'read', 'o': o, 'policy': pol, 'minlen': 1, 'maxlen': 6 if T else 5, 'first': first})
